@@ -125,7 +125,7 @@ def cases(rng, tier):
 			yield ('full', freeze(p))
 			yield ('full', freeze(dict(p, entity_body=b'')))
 			yield ('perturb', freeze(p))
-	n = 30000 if tier == 'thorough' else 1500
+	n = 30000 if tier == 'thorough' else 4000
 	for _ in range(n):
 		yield ('full', freeze(valid_tuple(rng)))
 	for _ in range(n // 2):
